@@ -171,6 +171,7 @@ def pick_cfg(rnd):
 SHAPES = [
     "sym-then-dir", "dir-then-sym", "file-then-dir", "dir-then-file", "slash-prefix", "dup-raw", "nested-sym", "dotgit-variant",
     "sym-into-git-then-dir", "final-sym-overwrite", "gitlink-vs-sym", "partial-then-traverse", "mixed-then-delete", "sym-then-delete-below",
+    "dir-then-sym+slash-names", "dir-then-sym+slash-names", "dir-then-sym+slash-names",
 ]
 
 
@@ -194,6 +195,14 @@ def shape_case(rnd):
         trees = [[blob(b"a"), keep], [tree(b"a", sub_bc), keep]]
     elif shape == "dir-then-file":
         trees = [[tree(b"a", sub_bc), keep], [blob(b"a", BLOB_MODES[rnd.randrange(len(BLOB_MODES))]), keep]]
+    elif shape == "dir-then-sym+slash-names":
+        # a real directory whose entries go away, then - in the same transition - a symlink of that name plus entries
+        # whose *names* contain the slash (CVE-2021-21300 shape: a leading-directory check cached across the removal
+        # and the creation of the symlink)
+        names = [b"a/b", b"a/sub/c"] + ([b"a/0nd/deep/g"] if fresh else []) + ([b"a/pwn"] if chance(rnd, 50) else [])
+        trees = [[tree(b"a", sub_bc), keep], [link(b"a", tgt)] + [blob(n, X if n.endswith(b"pwn") else F) for n in names] + [keep]]
+        if chance(rnd, 30):
+            trees[0].append(tree(b"zz", [blob(b"f")]))  # an unrelated directory that goes away too
     elif shape == "slash-prefix":
         trees = [[link(b"a", tgt), blob(b"a/b"), blob(b"a/sub/c")] + ([blob(b"a/0nd/deep/g")] if fresh else []) + [keep]]
         if chance(rnd, 50):
@@ -265,7 +274,7 @@ def shape_case(rnd):
             if leaves:
                 steps[-1] = {"op": ["checkout_paths", "restore", "reset_file"][rnd.randrange(3)], "tree": last["tree"],
                              "paths": [leaves[rnd.randrange(len(leaves))][0] for _ in range(rnd.randrange(1, 3))]}
-    if shape != "dup-raw" and not (shape == "slash-prefix"):
+    if shape != "dup-raw" and shape not in ("slash-prefix", "dir-then-sym+slash-names"):
         trees = [canonical(t) for t in trees]
     return {"cfg": pick_cfg(rnd), "born": bool(rnd.randrange(2)), "trees": trees, "steps": steps, "shape": shape}
 
